@@ -658,8 +658,12 @@ class Checker(metaclass=abc.ABCMeta):
             real_name, email_address = email.utils.parseaddr(report_msgid_bugs_to)
             del real_name
             if '@' not in email_address:
-                uri = urllib.parse.urlparse(report_msgid_bugs_to)
-                if uri.scheme == '':
+                try:
+                    uri_scheme = urllib.parse.urlparse(report_msgid_bugs_to).scheme
+                except ValueError:
+                    # e.g. "http://[foo" (unbalanced bracket in the netloc)
+                    uri_scheme = ''
+                if uri_scheme == '':
                     self.tag('invalid-report-msgid-bugs-to', report_msgid_bugs_to)
             elif domains.is_email_in_special_domain(email_address):
                 self.tag('invalid-report-msgid-bugs-to', report_msgid_bugs_to)
